@@ -74,6 +74,9 @@ struct ThreadSt {
 struct CtlState {
     th: Vec<ThreadSt>,
     punches: Vec<(usize, usize)>,
+    /// per punch: the uids of the regions on which an operation was in flight (predicted version appended,
+    /// not yet completed) at the moment of the punch
+    punch_inflight: Vec<Vec<u64>>,
     viol: Vec<String>,
     /// uid -> every version of the contents the region held or was about to hold (an operation's
     /// predicted result is appended when the operation starts)
@@ -122,7 +125,12 @@ fn install_sink() {
         verif_tap::set_sink(Some(Box::new(|e: &Event| {
             if let Event::Punch { offset, len } = e {
                 if let Some(c) = CASE.lock().unwrap().as_ref() {
-                    c.m.lock().unwrap().punches.push((*offset, *len));
+                    let mut g = c.m.lock().unwrap();
+                    let inflight: Vec<u64> = g.hist.iter()
+                        .filter(|(uid, h)| h.len().saturating_sub(1) > g.completed.get(*uid).copied().unwrap_or(0))
+                        .map(|(uid, _)| *uid).collect();
+                    g.punches.push((*offset, *len));
+                    g.punch_inflight.push(inflight);
                 }
                 return;
             }
@@ -569,9 +577,18 @@ impl Worker {
                 let last = have.iter().zip(want.iter()).rposition(|(a, b)| a != b).unwrap();
                 let zeros = (first..=last).all(|k| have[k] == want[k] || have[k] == 0);
                 let start = r.meta().start();
-                let punched = self.ctl.m.lock().unwrap().punches.iter().any(|(o, l)| *o <= start + first && start + first < o + l);
-                if zeros && punched {
+                let uid = *self.uid.get(id).unwrap_or(id);
+                let (punched, mid_write) = {
+                    let g = self.ctl.m.lock().unwrap();
+                    let hit: Vec<usize> = g.punches.iter().enumerate()
+                        .filter(|(_, (o, l))| *o <= start + first && start + first < o + l).map(|(k, _)| k).collect();
+                    (!hit.is_empty(), hit.iter().any(|k| g.punch_inflight.get(*k).map(|v| v.contains(&uid)).unwrap_or(false)))
+                };
+                if zeros && punched && mid_write {
                     self.viol(format!("C12:punch-zeroes-bytes-copied-but-not-yet-published {when} region={id} zeroed={first}..={last} len={}", want.len()));
+                } else if zeros && punched {
+                    // no operation on this region was in flight when compaction punched: the bytes belonged to a COMPLETED write
+                    self.viol(format!("C12:punch-zeroes-bytes-of-a-completed-write {when} region={id} zeroed={first}..={last} len={}", want.len()));
                 } else {
                     self.viol(format!("thread-region-bytes-differ-from-own-ops {when} region={id} first-at={first} last-at={last} len={} have={} want={}", want.len(), have[first], want[first]));
                 }
@@ -997,6 +1014,10 @@ fn directed() -> Vec<(&'static str, Case)> {
         // same window, but the new data ends below ceil_page(old len): harmless
         ("compact-between-copy-and-update-same-page",
          mk(0, "c:1:0,w:1:1:5000,t:1:10,f", &["w:1:2:3000", "cp"], "0>Z:write_with:fits:after-data,1*,0*")),
+        // the write runs to completion while compaction is parked after it has listed the regions and taken
+        // its locks: punch_holes must use the length it reads under the metadata lock, not an earlier one
+        ("write-completes-while-compact-parked-after-listing",
+         mk(0, "c:1:0,w:1:1:5000,t:1:10,f", &["w:1:2:6000", "cp"], "1>Z:punch_holes:locks-held,0*,1*")),
         // compact entirely before / after the write
         ("compact-before-write", mk(0, "c:1:0,w:1:1:5000,t:1:10,f", &["w:1:2:5000", "cp"], "1*,0*")),
         ("compact-after-publish", mk(0, "c:1:0,w:1:1:5000,t:1:10,f", &["w:1:2:5000", "cp"], "0*,1*")),
